@@ -5,6 +5,7 @@
 -/
 import Proofs.TimeRoundtrip
 import Proofs.TimeCanon
+import Proofs.TimeInstant
 
 namespace Asn1.C20
 open Asn1.Time
@@ -74,6 +75,40 @@ theorem canon_refuses_sign (k : Kind) (s : List Char) (h : '+' ∈ s ∨ '-' ∈
     canonTime k s = .error .liberr :=
   canonTime_refuses_sign k h
 
+/-- UTCTime: the text `fromDateTime` writes, read per X.680 §47 (two-digit year in the strptime window),
+    denotes the datetime's own instant with its own offset. -/
+theorem utc_text_instant (dt : DT) (v : ValidDT dt) (hy : 1969 ≤ dt.year ∧ dt.year ≤ 2068) (hs : dt.micro = 0) :
+    instant utc (fromDateTime utc dt) = some ({ dt with off := some (dt.off.getD 0) } : DT).instant :=
+  instant_fromDateTime_utc v hy hs
+
+/-- PARTIAL (known finding `from-fraction-unpadded`, pinned by
+    tests/type/test_useful.py::GeneralizedTimeTestCase::testFromDateTime).
+    Full statement: ∀ dt, ValidDT dt → dt.micro % 1000 = 0 →
+        instant gt (fromDateTime gt dt) = some { dt with off := some (dt.off.getD 0) }.instant
+    It is false for 0 < ms < 100 (`'.%d' % ms` is not zero-padded; see `from_fraction_counterexample`); the
+    library's own `asDateTime` undoes the error, so `gt_roundtrip` is unaffected. Proved for the complement. -/
+theorem from_instant_partial (dt : DT) (v : ValidDT dt) (hms : dt.micro % 1000 = 0)
+    (hg : dt.micro = 0 ∨ 100000 ≤ dt.micro) :
+    instant gt (fromDateTime gt dt) = some ({ dt with off := some (dt.off.getD 0) } : DT).instant :=
+  instant_fromDateTime_gt v hms hg
+
+/-- inside the finding's region: 5 ms is written `.5`, which X.680 reads as 500 ms -/
+theorem from_fraction_counterexample :
+    fromDateTime gt ⟨2017, 7, 11, 0, 1, 2, 5000, none⟩ = "20170711000102.5Z".toList
+      ∧ instant gt "20170711000102.5Z".toList = some ⟨2017, 7, 11, 62500000, 0, some 0⟩
+      ∧ (⟨2017, 7, 11, 0, 1, 2, 5000, some 0⟩ : DT).instant = ⟨2017, 7, 11, 62005000, 0, some 0⟩ := by
+  refine ⟨?_, by decide, by decide⟩
+  rw [fromDateTime_gt, dec_lt (by decide)]
+  decide
+
+/-- known finding `as-fraction-integer-ms` (pinned by tests/type/test_useful.py testToDateTime2..6) on its
+    witness: `asDateTime` reads `.12` as 12 ms where X.680 reads 120 ms; four digits leak a ValueError -/
+theorem as_fraction_counterexample :
+    asDateTime gt "20170711000102.12Z".toList = .ok ⟨2017, 7, 11, 0, 1, 2, 12000, some 0⟩
+      ∧ instant gt "20170711000102.12Z".toList = some ⟨2017, 7, 11, 62120000, 0, some 0⟩
+      ∧ asDateTime gt "20170711000102.1234Z".toList = .error (.leak "ValueError") := by
+  decide
+
 /-! ### non-vacuity -/
 
 def sample : DT := ⟨2017, 7, 11, 0, 1, 2, 3000, some (-90)⟩
@@ -105,5 +140,14 @@ example : instant gt "20170801120112".toList = some ⟨2017, 8, 1, 43272000000, 
 example : canonTime gt "20170801120112".toList = .error .liberr :=
   canon_refuses_nonutc gt _ _ (by decide : instant gt "20170801120112".toList = some ⟨2017, 8, 1, 43272000000, 0, none⟩)
     (by decide)
+
+example : instant gt (fromDateTime gt { sample with micro := 120000 })
+    = some (⟨2017, 7, 11, 0, 1, 2, 120000, some (-90)⟩ : DT).instant :=
+  from_instant_partial _ ⟨by decide, by decide, by decide, by decide, by decide, by decide, by decide,
+    by intro o h; cases h; decide⟩ (by decide) (Or.inr (by decide))
+example : instant utc (fromDateTime utc { sample with micro := 0 })
+    = some (⟨2017, 7, 11, 0, 1, 2, 0, some (-90)⟩ : DT).instant :=
+  utc_text_instant _ ⟨by decide, by decide, by decide, by decide, by decide, by decide, by decide,
+    by intro o h; cases h; decide⟩ (by decide) rfl
 
 end Asn1.C20
